@@ -2,7 +2,7 @@
 from composite import install
 TIE = "corr:pe-mutation"
 TIE_THEOREM = "Relic.Props.C02.pe_hashed_injective (model-directed mutation of really signed images: Relic.Model.PE vs authenticode.VerifyPE)"
-UNPROVED = ['Relic.Props.C02.vsix_tamper_evident_full (an accepted package is the signed package): false also after the repairs of FV3 / FV4, witness vsix_residual_witness (member order, [Content_Types].xml = FV5, parts under metadata names = FV6); proved: vsix_tamper_evident (payload members of an accepted package = the signed ones, byte for byte, no name twice), vsix_verify_depends_only_on_lookups for everything else', 'Relic.Props.C02.ps_hashed_injective_utf8_full', 'Relic.Props.C02.deb_hashed_injective_full (two tables accepted for one signed text agree as maps; partial: deb_listed_member_protected; the gaps are theorems)', 'Relic.Props.C02.xml_tamper_evident_full (xml_tamper_evident_partial proved: one text node or attribute value; the multi-SignedInfo forgery F37 is repaired and replayed from corpus/C02/xmldsig_forge.ops)']
+UNPROVED = ['Relic.Props.C02.vsix_tamper_evident_full (an accepted package is the signed package): false also after the repairs of FV3 / FV4, witness vsix_residual_witness (member order, [Content_Types].xml = FV5, parts under metadata names = FV6); proved: vsix_tamper_evident (payload members of an accepted package = the signed ones, byte for byte, no name twice), vsix_verify_depends_only_on_lookups for everything else', 'Relic.Props.C02.deb_hashed_injective_full (two tables accepted for one signed text agree as maps; partial: deb_listed_member_protected; the gaps are theorems)', 'Relic.Props.C02.xml_tamper_evident_full (xml_tamper_evident_partial proved: one text node or attribute value; the multi-SignedInfo forgery F37 is repaired and replayed from corpus/C02/xmldsig_forge.ops)']
 IMPL_PARALLEL = 16
 RULE = ("PE: generated images signed with relic's own pe-coff signer (P-256 / RSA-2048, with and without page hashes); every carve-out "
         "boundary (checksum, certificate-table directory entry, end of image, padding, certificate table header) plus seeded random "
